@@ -9,7 +9,7 @@ OV_LAYER = {"fs/layer/verif_readpath.go": "fs/layer/verif_readpath.go",
 OV_DB = {"fs/layer/verif_readpath.go": "fs/layer/verif_readpath.go",
          "cmd/containerd-stargz-grpc/db/verif_readpath_test.go": "cmd/containerd-stargz-grpc/db/verif_readpath_test.go"}
 STORES = [("memory", "", "./fs/layer/", OV_LAYER), ("db", "cmd", "./containerd-stargz-grpc/db/", OV_DB)]
-INTERNAL = ("TypeOK", "LayoutOK")
+INTERNAL = ("TypeOK", "LayoutOK", "TarOK")
 
 
 # ---------------------------------------------------------------------------------------------- input space
@@ -40,7 +40,42 @@ def read_layers(run):
     return [dict(name=n, entries=ents, chunk=c, minchunk=m, comp=comp, prio=p, cache=ck, via=via) for n, c, m, comp, p, ck, via in grid]
 
 
+def meta_layers(run):
+    """Tar shapes for the metadata half (entry types, name spellings, implicit parents, hard-link chains, duplicate names, xattrs)."""
+    k = run.seed
+    s1 = [ent(["a"], "dir", uid=1, gid=2, mtime=1111, xattrs=[["user.k", "v%d" % k]]),
+          ent(["a", "f"], "reg", file=1, size=3, mode=0o4644, style="dot"),
+          ent(["a", "s"], "symlink", target="../x/y" + "z" * (k % 3), mode=0o777),
+          ent(["h"], "hardlink", link=["a", "f"], linkstyle="slash"),
+          ent(["c"], "char", major=1, minor=4 + k, mode=0o620),
+          ent(["p", "q", "g"], "reg", file=2, size=2, mode=0o600, uid=1000, gid=1000 + k, style="slash")]
+    s2 = [ent(["x"], "reg", file=1, size=2),
+          ent(["x"], "reg", file=2, size=4, mode=0o755, mtime=2000 + k),
+          ent(["d"], "dir", mode=0o700),
+          ent(["d"], "dir", mode=0o1711, mtime=3000, style="dot"),
+          ent(["d", "y"], "reg", file=3, size=1, style="dotdot", xattrs=[["user.a", "1"], ["security.x", "zz"]]),
+          ent(["l1"], "hardlink", link=["x"]),
+          ent(["l2"], "hardlink", link=["l1"], linkstyle="dot"),
+          ent(["b"], "block", major=8, minor=1, mode=0o660, gid=6),
+          ent(["ff"], "fifo", mode=0o644, uid=k)]
+    s3 = [ent(["e"], "reg", file=1, size=0, mode=0o2755),
+          ent(["u", "v"], "dir", mode=0o2775, gid=50, style="slash"),
+          ent(["u", "v", "w"], "symlink", target="/" + "t" * (5 + k), mode=0o777),
+          ent(["u", "r"], "reg", file=2, size=5, mode=0o444, xattrs=[["user.k", ""]]),
+          ent(["u", "v", "k1"], "hardlink", link=["u", "r"]),
+          ent(["u", "k2"], "hardlink", link=["u", "v", "k1"], style="dot"),
+          ent(["n"], "char", major=0, minor=0, mode=0o000)]
+    big = 1 << 20
+    res = [dict(name="m1", entries=s1, chunk=2, minchunk=0, comp="gzip", prio=[], cache="mem", via="node"),
+           dict(name="m2", entries=s2, chunk=3, minchunk=big, comp="zstd", prio=["d/y"], cache="mem", via="node")]
+    if run.tier == "thorough":
+        res.append(dict(name="m3", entries=s3, chunk=2, minchunk=big, comp="gzip", prio=["u/r", "e"], cache="dir", via="node"))
+    return res
+
+
 def tla(v):
+    if isinstance(v, dict):
+        return "[" + ", ".join("%s |-> %s" % (k, tla(x)) for k, x in v.items()) + "]"
     if isinstance(v, bool):
         return "TRUE" if v else "FALSE"
     if isinstance(v, (list, tuple)):
@@ -53,6 +88,10 @@ def tla(v):
 def mc_module(layout):
     return ("---- MODULE ReadPathMC ----\nEXTENDS ReadPathGen\nMCSizes == %s\nMCChunkTab == %s\nMCPrefetch == %s\n====\n"
             % (tla(layout["sizes"]), tla(layout["chunks"]), tla(layout["prefetch"])))
+
+
+def meta_module(entries):
+    return "---- MODULE TarMetaMC ----\nEXTENDS TarMetaGen\nMCTar == %s\n====\n" % tla(entries)
 
 
 def go_stage(run, store, inp, timeout=1200):
@@ -133,34 +172,55 @@ def check(run):
     run._prep = prep
 
     # ------------------------------------------------------------------ layouts from the real builder
-    layers = read_layers(run)
+    only = os.environ.get("VERIF_C02_ONLY", "")     # development aid (mutant triage): "read" or "meta" runs one half only
+    layers = read_layers(run) if only != "meta" else []
     dump_in, dump_out = os.path.join(run.scratch, "dump_in.json"), os.path.join(run.scratch, "dump.json")
     write_json(dump_in, {"jobs": [{"layer": l, "kind": "read", "walks": [], "out": ""} for l in layers], "dump_out": dump_out})
-    go_stage(run, STORES[0], dump_in)
-    layouts = json.load(open(dump_out))
+    if layers:
+        go_stage(run, STORES[0], dump_in)
+    layouts = json.load(open(dump_out)) if layers else {}
     for l in layers:
         log("[layout] %-5s %s" % (l["name"], json.dumps(layouts[l["name"]])))
 
     # ------------------------------------------------------------------ M + generation (ReadPath)
     jobs = []
     exhaustive = True
-    lens_gen = "{1, 3, 4, 9}" if not thorough else "{1, 2, 3, 4, 6, 10}"
+    lens_gen = ["{1, 4, 9}", "{1, 4, 9}", "{2, 9}"] if not thorough else ["{1, 2, 3, 5, 10}"] * len(layers)
     for i, l in enumerate(layers):
         lay = layouts[l["name"]]
         current["ReadPathMC.tla"] = mc_module(lay)
-        if i < 2 or thorough:
+        if i == 1 or thorough:
             run.tlc_mc("ReadPathMC", "ReadPath_mc.cfg", workers=4, timeout=1500, name="ReadPath_mc.cfg layer=%s" % l["name"])
         if i == 1:
             # negative controls on the layer whose streams are shared by several chunks/files
             for k in ("LocateOK", "DiscardOK", "InnerSkipOK", "PreReadKeyOK"):
                 run.tlc_negctl("ReadPathMC", "ReadPath_mc.cfg", {k: "FALSE"}, ["ReadEqualsSourceStep", "CacheHoldsOnlySourceBytes"], drop=INTERNAL)
-        inits, edges = run.tlc_edges("ReadPathMC", "ReadPath_gen.cfg", {"Lens": lens_gen}, timeout=1500)
-        walks, st = edge_cover(inits, edges, maxlen=25, rng=run.rng, extra_walks=60 if thorough else 10)
+        inits, edges = run.tlc_edges("ReadPathMC", "ReadPath_gen.cfg", {"Lens": lens_gen[i]}, timeout=1500)
+        walks, st = edge_cover(inits, edges, maxlen=25, rng=run.rng, extra_walks=60 if thorough else 5)
         log("[walks] %s: %s" % (l["name"], st))
         exhaustive = exhaustive and st["covered"] == st["edges"]
         run.cov["stages"].append(dict(stage="edge-cover", graph="ReadPath:" + l["name"], **st))
         jobs.append({"layer": l, "kind": "read", "out": os.path.join(run.scratch, "read_%s.ndjson" % l["name"]),
                      "walks": [[{k: v for k, v in s.items() if k in ("act", "f", "off", "len", "size")} for s in w] for w in walks]})
+    # ------------------------------------------------------------------ M + generation (TarMeta)
+    meta_jobs = []
+    for i, l in enumerate(meta_layers(run) if only != "read" else []):
+        current["TarMetaMC.tla"] = meta_module(l["entries"])
+        if i == 0 or thorough:
+            run.tlc_mc("TarMetaMC", "TarMeta_mc.cfg", workers=2, timeout=1500, name="TarMeta_mc.cfg tar=%s" % l["name"])
+        if i == 0:
+            for k in ("ImplicitDirMode755", "LinksCountOnSource", "SymlinkSizeFromTarget", "MemoOnlyHidesAbsent"):
+                ov = {k: "FALSE"}
+                run.tlc_negctl("TarMetaMC", "TarMeta_mc.cfg", ov, ["MetaEqualsTarStep"], drop=("TarOK",))
+        if i == 1:
+            run.tlc_negctl("TarMetaMC", "TarMeta_mc.cfg", {"LastWins": "FALSE"}, ["MetaEqualsTarStep"], drop=("TarOK",))
+        inits, edges = run.tlc_edges("TarMetaMC", "TarMeta_gen.cfg", timeout=1500)
+        walks, st = edge_cover(inits, edges, maxlen=25, rng=run.rng, extra_walks=20 if thorough else 4)
+        log("[walks] %s: %s" % (l["name"], st))
+        exhaustive = exhaustive and st["covered"] == st["edges"]
+        run.cov["stages"].append(dict(stage="edge-cover", graph="TarMeta:" + l["name"], **st))
+        meta_jobs.append({"layer": l, "kind": "meta", "out": os.path.join(run.scratch, "meta_%s.ndjson" % l["name"]),
+                          "walks": [[{k: v for k, v in s.items() if k in ("act", "dir", "name", "path", "key")} for s in w] for w in walks]})
     free_jobs = []
     for l in layers[1:3] if not thorough else layers:
         free_jobs.append({"layer": l, "kind": "free", "out": os.path.join(run.scratch, "free_%s.ndjson" % l["name"]), "walks": [],
@@ -168,18 +228,25 @@ def check(run):
 
     # ------------------------------------------------------------------ R + T against both stores
     inp = os.path.join(run.scratch, "jobs.json")
-    write_json(inp, {"jobs": jobs + free_jobs, "dump_out": ""})
+    write_json(inp, {"jobs": jobs + meta_jobs + free_jobs, "dump_out": ""})
     for store in STORES:
         go_stage(run, store, inp)
     allread, allfree = os.path.join(run.scratch, "read_all.ndjson"), os.path.join(run.scratch, "free_all.ndjson")
-    for dst, js in ((allread, jobs), (allfree, free_jobs)):
+    allmeta = os.path.join(run.scratch, "meta_all.ndjson")
+    for dst, js in ((allread, jobs), (allfree, free_jobs), (allmeta, meta_jobs)):
         with open(dst, "w") as fh:
             for j in js:
                 for store in STORES:
                     fh.write(open(j["out"] + "." + store[0]).read())
-    validate(run, "ReadPathTrace", "ReadPathTrace.cfg", "ReadPathMonitor", "ReadPathMonitor.cfg", allread, "replay",
-             lambda e: e.get("ev") == "Read")
-    validate(run, None, None, "ReadPathMonitor", "ReadPathMonitor.cfg", allfree, "free-run", lambda e: e.get("ev") == "Read")
+    if jobs:
+        validate(run, "ReadPathTrace", "ReadPathTrace.cfg", "ReadPathMonitor", "ReadPathMonitor.cfg", allread, "replay",
+                 lambda e: e.get("ev") == "Read")
+        validate(run, None, None, "ReadPathMonitor", "ReadPathMonitor.cfg", allfree, "free-run", lambda e: e.get("ev") == "Read")
+    if meta_jobs:
+      validate(run, "TarMetaTrace", "TarMetaTrace.cfg", "TarMetaMonitor", "TarMetaMonitor.cfg", allmeta, "meta",
+             lambda e: e.get("ev") in ("Lookup", "Readdir", "Getattr", "Readlink", "Getxattr"))
+    if only:
+        run.inconclusive.append("VERIF_C02_ONLY=%s: partial run (development aid), not a verdict" % only) if not run.violations else None
     run.cov["exhaustive"] = exhaustive
 
 
